@@ -209,7 +209,7 @@ fn fs_case<P: G>(cfg: Cfg) -> Box<dyn Case> {
         if wit.values[0] >= 1 {
             wit.promises[0] = Some(wit.values[0] / 2);
         }
-        let built = build_cached::<P>(&cfg, &wit).expect("valid");
+        let built = build_cached::<P>(&cfg, &wit).honest();
         let k = cfg.rounds();
         let h = P::h_compressed(&built.params);
         let g = P::g_compressed(&built.params);
@@ -347,8 +347,8 @@ fn batch_case<P: G>(len: usize) -> Box<dyn Case> {
             wit.values[0] = (pos % 4) as u64;
             wit.blindings[0][0] = blinding(7000 + pos, 0);
             let ctx = contexts()[pos % 6];
-            let built = build_cached::<P>(&cfg, &wit).unwrap();
-            proofs.push(lib_prove(&built, &ctx, &mut HRng::chacha(pos as u64)).unwrap());
+            let built = build_cached::<P>(&cfg, &wit).honest();
+            proofs.push(lib_prove(&built, &ctx, &mut HRng::chacha(pos as u64)).honest());
             sts.push(built.statement.clone());
             ctxs.push(ctx);
         }
